@@ -75,7 +75,8 @@ var (
 func encodeString(value string) []byte {
 
 	if value == "" {
-		return []byte{_nilTag}
+		// the empty string has its own encoding (x00); null would end the enclosing list or map early
+		return []byte{_stringShortLenMin}
 	}
 
 	dataBys := []rune(value)
